@@ -12,7 +12,9 @@ from .. import framework as fw
 from .. import odelib as ol
 from . import c01
 
-TRUST = ["generator-side table of compositions (harness/props/c04.py POOL) defines which reactions are balanced"]
+TRUST = ["generator-side table of compositions (harness/props/c04.py POOL) defines which reactions are balanced",
+         "channel C: g++ 12; the rendered naunet_physics.cpp compiled as it stands (tables of the shielding functions left unresolved, "
+         "never called) and its element totals called by harness/cxx/phys_driver.cpp; doubles compared at relative 1e-12 (sums of positive terms)"]
 
 # name -> (element counts, charge); labels o/p and the ice prefix '#' do not change the composition
 POOL = {
@@ -108,6 +110,30 @@ def impl_weights(a):
     return [(dict(s.element_count), s.charge) for s in a.species]
 
 
+CXX = fw.VERIF / "harness" / "cxx"
+
+
+def run_physics(d, vectors):
+    """channel C: compile the rendered naunet_physics.cpp as it stands and evaluate its element totals on the given
+    abundance vectors (lists of floats, one per equation).  Returns (rows, None) or (None, diagnostic)."""
+    import subprocess
+    exe = d / "phys"
+    srcs = [d / "src" / f for f in ("naunet_physics.cpp", "naunet_constants.cpp", "naunet_utilities.cpp") if (d / "src" / f).exists()]
+    # tables and interpolation routines of the shielding functions (never called here) live in files that need binding energies
+    # for every ice species: they are left unresolved
+    cmd = ["g++", "-std=c++17", "-O0", "-w", "-Wl,--unresolved-symbols=ignore-all", "-I", str(CXX / "sundials"), "-I", str(CXX), "-I", str(d / "include"), "-o", str(exe),
+           *map(str, srcs), str(CXX / "phys_driver.cpp")]
+    r = subprocess.run(cmd, stdout=subprocess.PIPE, stderr=subprocess.STDOUT, text=True)
+    if r.returncode != 0:
+        return None, r.stdout[-600:]
+    inp = "\n".join(" ".join(repr(float(x)) for x in v) for v in vectors) + "\n"
+    r = subprocess.run([str(exe)], input=inp, stdout=subprocess.PIPE, stderr=subprocess.STDOUT, text=True, timeout=60)
+    rows = [[float(t) for t in l.split()] for l in r.stdout.splitlines() if l.strip()]
+    if r.returncode != 0 or len(rows) != len(vectors):
+        return None, f"driver exit {r.returncode}, {len(rows)} rows for {len(vectors)} vectors: {r.stdout[-300:]}"
+    return rows, None
+
+
 def check_desc(res, model, desc, rng, tag, channel_b=False):
     case = {"kind": "c04", "desc": desc}
     for r, p in desc["reactions"]:
@@ -149,10 +175,48 @@ def check_desc(res, model, desc, rng, tag, channel_b=False):
             break
     if channel_b:
         net = ol.build_network(desc)
-        d = ol.render(net, "cvode", "dense", "cpu", templates=["src/naunet_physics.cpp.j2", "include/naunet_macros.h.j2", "src/naunet_fex.cpp.j2"])
+        d = ol.render(net, "cvode", "dense", "cpu", templates=["src/naunet_physics.cpp.j2", "include/naunet_macros.h.j2", "src/naunet_fex.cpp.j2",
+                                                              "include/naunet_physics.h.j2", "include/naunet_constants.h.j2", "include/naunet_utilities.h.j2"])
         src = (d / "src" / "naunet_physics.cpp").read_text()
         macros = ol.read_macros(d)
         y = env["y"]
+        # ---- channel C: the rendered helper routines, compiled and called (independent of how the file is laid out)
+        neq = len(a.species) + (1 if (a.info.heating or a.info.cooling) else 0)
+        els = [next(iter(e.element_count.keys())) for e in net.elements]
+        exec_ok = None
+        if a.species:
+            vecs = []
+            for _ in range(3):
+                v = {s.alias: Fraction(rng.randint(1, 4096), 64) for s in a.species}
+                vecs.append(v)
+            rows, diag = run_physics(d, [[v[s.alias] for s in a.species] + [Fraction(100)] * (neq - len(a.species)) for v in vecs])
+            if rows is None:
+                res.violation("correspondence", f"rendered naunet_physics.cpp does not compile / run against the driver: {diag}", case)
+            else:
+                exec_ok = True
+                res.count("physics routines executed")
+                for v, row in zip(vecs, rows):
+                    for el in els:
+                        e_i = ol.macro_int(macros, f"IDX_ELEM_{el}")
+                        want = sum((ec.get(el, 0) * v[s.alias] for s, (ec, q) in zip(a.species, comp)), Fraction(0))
+                        got = row[e_i] if e_i is not None and e_i < len(els) else None
+                        if got is None or abs(got - float(want)) > 1e-12 * max(1.0, float(want)):
+                            exec_ok = False
+                            res.violation("oracle", f"compiled GetElementAbund(y, IDX_ELEM_{el}) returns {got!r}, the count-weighted sum is {float(want)!r} "
+                                          f"for y = {[float(v[s.alias]) for s in a.species][:6]}", dict(case, y=[str(v[s.alias]) for s in a.species]))
+                            break
+                    want_m = sum((v[s.alias] for s in a.species if s.is_surface), Fraction(0))
+                    got_m = row[len(els)]
+                    if abs(got_m - float(want_m)) > 1e-12 * max(1.0, float(want_m)):
+                        exec_ok = False
+                        res.violation("oracle", f"compiled GetMantleDens returns {got_m!r}, the sum of the ice abundances is {float(want_m)!r}", case)
+                    want_h = sum((ec.get("H", 0) * v[s.alias] for s, (ec, q) in zip(a.species, comp)), Fraction(0)) if "H" in els else Fraction(0)
+                    got_h = row[len(els) + 1]
+                    if abs(got_h - float(want_h)) > 1e-12 * max(1.0, float(want_h)):
+                        exec_ok = False
+                        res.violation("oracle", f"compiled GetHNuclei returns {got_h!r}, the hydrogen total is {float(want_h)!r}", case)
+                    if not exec_ok:
+                        break
         body = src[src.index("double GetElementAbund("):src.index("double GetMantleDens(")]
         found = {}
         for m in re.finditer(r"if \(elemidx == IDX_ELEM_(\w+)\) \{\s*return (.*?);", body, re.S):
@@ -199,8 +263,13 @@ def check_desc(res, model, desc, rng, tag, channel_b=False):
             res.corr_disagreements += 1
             res.violation("correspondence", f"GetHNuclei is not written as the hydrogen element total of GetElementAbund: {body_h!r}", case)
         atoms = {s.name for s in a.species if s.name in ELEMENTS} | ({"GRAIN"} if any(s.name == "GRAIN0" for s in a.species) else set())
-        if set(found) != atoms:
-            res.violation("oracle", f"GetElementAbund handles {sorted(found)} but the atomic species are {sorted(atoms)}", case)
+        if set(els) != atoms:
+            res.violation("oracle", f"the element table of the rendered sources is {sorted(els)} but the atomic species are {sorted(atoms)}", case)
+        elif set(found) != atoms:
+            # the text reader knows one spelling of the branches only; when the compiled routine returns the right totals for
+            # every element the reader is what does not understand the file
+            res.violation("correspondence" if exec_ok else "oracle",
+                          f"GetElementAbund: the reader finds branches for {sorted(found)} but the atomic species are {sorted(atoms)}", case)
         # conservation of the rendered Fex too
         st = c01.fex_statements((d / "src" / "naunet_fex.cpp").read_text())
         v2 = {}
